@@ -306,10 +306,10 @@ static void walkCase(Rng &rng, CaseResult &r) {
 
 int main(int argc, char **argv) {
   std::vector<vf::Part> parts;
-  parts.push_back({"c02.opt", [](uint64_t, Rng &rng, CaseResult &r) { optCase(rng, r, O_C02); }, 120});
-  parts.push_back({"c05.opt", [](uint64_t, Rng &rng, CaseResult &r) { optCase(rng, r, O_C05); }, 120});
-  parts.push_back({"c09.opt", [](uint64_t, Rng &rng, CaseResult &r) { optCase(rng, r, O_C09); }, 120});
-  parts.push_back({"c02.ds.closure", [](uint64_t idx, Rng &, CaseResult &r) { closureCase(idx, r); }, 600});
-  parts.push_back({"c02.ds.walk", [](uint64_t, Rng &rng, CaseResult &r) { walkCase(rng, r); }, 60});
+  parts.push_back({"c02.opt", [](uint64_t, Rng &rng, CaseResult &r) { optCase(rng, r, O_C02); }, 20});
+  parts.push_back({"c05.opt", [](uint64_t, Rng &rng, CaseResult &r) { optCase(rng, r, O_C05); }, 20});
+  parts.push_back({"c09.opt", [](uint64_t, Rng &rng, CaseResult &r) { optCase(rng, r, O_C09); }, 20});
+  parts.push_back({"c02.ds.closure", [](uint64_t idx, Rng &, CaseResult &r) { closureCase(idx, r); }, 300});
+  parts.push_back({"c02.ds.walk", [](uint64_t, Rng &rng, CaseResult &r) { walkCase(rng, r); }, 10});
   return vf::runMain(argc, argv, parts);
 }
